@@ -218,6 +218,11 @@ func (m c05) checkSeq(c *fw.Ctx, tab []gts.Feature, hostB []byte, alpha string) 
 	host := mkHost("basic", tab, hostB)
 	var rev, comp, rc, rr, cc gts.Sequence
 	p, val, site, stack := fw.Guard(func() {
+		// the sibling operation on the same alphabet runs in the same process
+		// now and then: what Complement does must not depend on it.
+		if c05Tick++; c05Tick%4 == 1 {
+			gts.Transcribe(host)
+		}
 		rev = gts.Reverse(host)
 		comp = gts.Complement(host)
 		rc = gts.Reverse(gts.Complement(host))
@@ -457,3 +462,5 @@ func (m c05) Run(c *fw.Ctx) {
 	}
 	cliReverseComplement(c)
 }
+
+var c05Tick int
